@@ -203,6 +203,74 @@ func (h *hello) handshake() []byte {
 	return append([]byte{1, byte(len(b) >> 16), byte(len(b) >> 8), byte(len(b))}, b...)
 }
 
+// fudged encodes h with exactly one length field off by delta (field names
+// below); everything else, including the enclosing lengths, stays as the true
+// encoding has it.  These are the inputs on which a missing or off-by-one
+// bounds check in the parser shows.
+var fudgeFields = []string{"session", "ciphers", "compress", "extblock", "extlen", "snilist", "sniname", "handshake"}
+
+func (h *hello) fudged(field string, delta int, r *rand.Rand) []byte {
+	clamp := func(n, max int) int {
+		if n < 0 {
+			return 0
+		}
+		if n > max {
+			return max
+		}
+		return n
+	}
+	f := func(name string, n, max int) int {
+		if name == field {
+			return clamp(n+delta, max)
+		}
+		return n
+	}
+	var b []byte
+	b = append(b, byte(h.VersHi), byte(h.VersLo))
+	b = append(b, h.Random...)
+	b = append(b, byte(f("session", len(h.Session), 255)))
+	b = append(b, h.Session...)
+	b = append(b, be16(f("ciphers", len(h.Ciphers), 65535))...)
+	b = append(b, h.Ciphers...)
+	b = append(b, byte(f("compress", len(h.Compress), 255)))
+	b = append(b, h.Compress...)
+	if h.HasExts {
+		var eb []byte
+		target := -1
+		if field == "extlen" && len(h.Exts) > 0 {
+			target = r.Intn(len(h.Exts))
+		}
+		for i, e := range h.Exts {
+			data := e.Data
+			if e.Type == 0 && h.HasSNI && (field == "snilist" || field == "sniname") {
+				var body []byte
+				tn := r.Intn(len(h.SNI))
+				for k, se := range h.SNI {
+					body = append(body, byte(se.Type))
+					n := len(se.Name)
+					if field == "sniname" && k == tn {
+						n = clamp(n+delta, 65535)
+					}
+					body = append(body, be16(n)...)
+					body = append(body, se.Name...)
+				}
+				data = append(be16(f("snilist", len(body), 65535)), body...)
+			}
+			eb = append(eb, be16(e.Type)...)
+			n := len(data)
+			if i == target {
+				n = clamp(n+delta, 65535)
+			}
+			eb = append(eb, be16(n)...)
+			eb = append(eb, data...)
+		}
+		b = append(b, be16(f("extblock", len(eb), 65535))...)
+		b = append(b, eb...)
+	}
+	n := f("handshake", len(b), 1<<24-1)
+	return append([]byte{1, byte(n >> 16), byte(n >> 8), byte(n)}, b...)
+}
+
 func record(hs []byte) []byte {
 	return append([]byte{22, 3, 1, byte(len(hs) >> 8), byte(len(hs))}, hs...)
 }
@@ -454,6 +522,25 @@ func main() {
 			map[string]interface{}{"fn": "readServerName", "exts": len(h.Exts), "has_sni": h.HasSNI, "sni_entries": len(h.SNI), "want": want, "impl": got, "tls_ok": tlsOK, "tls_name": tlsName})
 		if i%4 == 0 {
 			addStream("ast-hello-stream", append(append([]byte(nil), rec...), randBytes(r, r.Intn(30))...))
+		}
+	}
+
+	// 2b. one length field off by a small delta, for every field
+	for i := 0; i < run.Scale(40, 800); i++ {
+		h := genHello(r)
+		if i%2 == 0 { // make sure the SNI entry is the last thing in the message half of the time
+			h.HasExts, h.HasSNI = true, true
+			h.SNI = []sniEntry{{Type: 0, Name: []byte(randHost(r))}}
+			h.Exts = append(h.Exts[:min(len(h.Exts), r.Intn(3))], ext{Type: 0, Data: encSNI(h.SNI)})
+		}
+		for _, field := range fudgeFields {
+			for _, delta := range []int{-2, -1, 1, 2} {
+				hs := h.fudged(field, delta, r)
+				if len(hs) > 16384 {
+					continue
+				}
+				addRead("length-fudge", record(hs), fmt.Sprintf("%s%+d", field, delta))
+			}
 		}
 	}
 
